@@ -74,9 +74,9 @@ func runE2EOne(sc e2eSc) *result {
 	srv := &recvRec{}
 	var smu sync.Mutex
 	var srvSent [][]byte
-	var hwg sync.WaitGroup
+	var hwg msgfix.Group
 	handler := func(_ any, ss grpc.ServerStream) error {
-		hwg.Add(1)
+		hwg.Add()
 		defer hwg.Done()
 		srv.mu.Lock()
 		srv.invoked = true
@@ -115,8 +115,8 @@ func runE2EOne(sc e2eSc) *result {
 	}
 	cli := &recvRec{}
 	ctx, cancel := context.WithCancel(context.Background())
-	var wg sync.WaitGroup
-	wg.Add(1)
+	var wg msgfix.Group
+	wg.Add()
 	go func() {
 		defer wg.Done()
 		st, err := p.CC.NewStream(ctx, &grpc.StreamDesc{ClientStreams: true, ServerStreams: true}, "/verif.Framing/Echo", copts...)
